@@ -20,6 +20,6 @@ cargo build --offline --workspace >> "$LOG" 2>&1; RC_BUILD=$?
 echo "## tests with change" >> "$LOG"
 PK=""; for c in "$@"; do PK="$PK -p $c"; done
 cargo nextest run $PK --no-fail-fast --test-threads 8 --offline -E 'not (test(run_all) | test(/test_threefold_[123]$/))' >> "$LOG" 2>&1
-FAILED=$(grep -E "^\s+(FAIL|SIGABRT|TIMEOUT|SIGSEGV)" "$LOG" | grep -v -E "test_threefold_[123]|perft::run_all" | sort -u | head -5)
+FAILED=$(grep -E "^\s+(FAIL|SIGABRT|TIMEOUT|SIGSEGV|SIGTERM|SIGKILL|SIG[A-Z]+)" "$LOG" | grep -v -E "test_threefold_[123]|perft::run_all" | sort -u | head -5)
 git checkout -q -- .
 echo "RESULT demo_clean_rc=$RC_CLEAN demo_mutant_rc=$RC_MUT build_rc=$RC_BUILD unexpected_test_failures=[$FAILED]" | tee -a "$LOG"
